@@ -348,7 +348,9 @@ func (c *Ctx) expiredEdge(b *ssa.BasicBlock, k int, msg ssa.Value, isPeriod func
 		return ok && call.Call.IsInvoke() && call.Call.Method.Name() == "Date" && call.Call.Value == msg
 	}
 	isCutoff := func(v ssa.Value) (bool, string) {
-		v = resolveCell(v)
+		// through a local, and through a parameter of the per-mailbox helper
+		// (sweepMailbox(messages, cutoff, …))
+		v = resolveCell(p.Actual(resolveCell(v)))
 		call, ok := v.(*ssa.Call)
 		if !ok || eng.CalleeName(call.Common()) != "(time.Time).Add" {
 			return false, ""
